@@ -273,6 +273,15 @@ def UL.sync {β : Type} (O : BOps β) (u : UL β) (spec : Spec) : Option (UL β)
 /-- `Load(name)` with the local limiter in force: `LocalFlowControl().Current()` -/
 def UL.load {β : Type} (u : UL β) (n : Nat) : Option (Limiter β) := (u.caches.lookup n).bind (·.fc)
 
+/-- `GetOrDefault(name)` (what `MatchAttributes` → `GetFlowSchema` asks with the policy's `flowControlSchemaName`):
+    only the EMPTY name (a policy that names no schema) gets the built-in exempt limiter outright; every other name
+    is looked up by exactly that name — names are abstract and distinct here: the table is keyed by the exact name,
+    no name is reserved or normalised — and only a miss falls back to the built-in one. -/
+def UL.getOrDefault {β : Type} (u : UL β) (name : Option Nat) : Limiter β :=
+  match name with
+  | none => .exempt
+  | some n => (u.load n).getD .exempt
+
 def UL.runSyncs {β : Type} (O : BOps β) : UL β → List Spec → Option (UL β)
   | u, [] => some u
   | u, sp :: rest => match u.sync O sp with
